@@ -855,3 +855,131 @@ def r6_streams_instant(k: int) -> bool:
         if not ok and os.environ.get('VT_REPLAY'):
             print('DETAIL:', msg)
         return ok
+
+
+# ----------------------------------------------------------------------------- R7: the adapters honour the chunk size they are given
+class _RecStream:
+    """Payload source / destination that records the size of every read request and every write."""
+
+    def __init__(self, data=b''):
+        import io
+        self.b = io.BytesIO(data)
+        self.reads, self.writes = [], []
+
+    def read(self, n=-1):
+        self.reads.append(n)
+        return self.b.read(n)
+
+    def write(self, data):
+        self.writes.append(len(data))
+        return self.b.write(data)
+
+    def seek(self, *a):
+        return self.b.seek(*a)
+
+    def tell(self):
+        return self.b.tell()
+
+    def truncate(self, *a):
+        return self.b.truncate(*a)
+
+
+def adapter_pieces_case(kind, chunk_size, size, op):
+    """upload_stream / download_stream of the local, S3-compatible and B2 adapters with a chunk size: every read request on
+    the payload stream and every write to the destination is at most that size (the limiter's bound assumes d <= L/4, and
+    the commands choose the chunk size accordingly - R3), and the bytes arrive intact."""
+    import io
+    from vt import fakes, rt, world
+    data = bytes((i * 13 + 5) % 251 for i in range(size))
+    name = 'data/ab/cd-piece'
+    loop = rt.MiniLoop(budget=2_000_000)
+    with world.scratch('c20p') as d:
+        if kind == 'local':
+            import replicat.backends.local as LB
+            be = LB.Local(str(d / 'r'))
+            call = lambda f, *a: f(*a)
+            stored = lambda: (d / 'r' / name).read_bytes()
+        else:
+            svc = fakes.FakeS3() if kind == 's3' else fakes.FakeB2()
+            svc.max_requests = 100000
+            be = fakes.s3_backend(svc) if kind == 's3' else fakes.b2_backend(svc)
+            call = lambda f, *a: loop.run_until_complete(f(*a))
+            stored = lambda: svc.objs[name]
+        rec = _RecStream(data)
+        if op == 0:
+            call(be.upload_stream, name, rec, len(data), chunk_size)
+            if stored() != data:
+                return False, f'{kind}: upload_stream stored different bytes'
+            sizes = [n for n in rec.reads]
+            if kind == 's3' and 'F14' in os.environ.get('VT_EXCLUDE', '').split(','):
+                # known finding F14: the digest pre-pass of the S3 adapter reads sha256.block_size * 10000 bytes at a time
+                import hashlib
+                sizes = [n for n in sizes if n != hashlib.sha256().block_size * 10_000]
+            if any(n is None or n < 0 or n > chunk_size for n in sizes):
+                return False, f'{kind}: upload_stream(chunk_size={chunk_size}) asked the payload stream for {max((n for n in sizes if n is not None), default=None)} bytes at once (or for everything)'
+        else:
+            call(be.upload, name, data)
+            call(be.download_stream, name, rec, chunk_size)
+            if rec.b.getvalue() != data:
+                return False, f'{kind}: download_stream delivered different bytes'
+            if any(n > chunk_size for n in rec.writes):
+                return False, f'{kind}: download_stream(chunk_size={chunk_size}) wrote {max(rec.writes)} bytes at once'
+        return True, ''
+
+
+def known_f14(args):
+    """S3-compatible adapter, upload_stream: the payload digest is computed by reading the stream in 640000-byte pieces."""
+    ki, ci, si, op = _decode4(args['k'])
+    return ki == 1 and op == 0
+
+
+def _decode4(k):
+    out = []
+    for r in [3, 5, 4, 2]:
+        out.append(k % r)
+        k //= r
+    return out
+
+
+def f14_replay():
+    """The digest pre-pass on the real classes with a controlled clock: bytes that pass the limiter vs the bound."""
+    import io
+    import replicat.utils as U
+    import replicat.backends.s3c as S
+
+    class Clock:
+        now = 0.0
+
+        def perf_counter(self):
+            return self.now
+
+        def sleep(self, sec):
+            self.now += sec
+
+        def __getattr__(self, n):
+            return getattr(_time, n)
+    clock, saved = Clock(), U.time
+    U.time = clock
+    try:
+        L = 100_000
+        w = U.RateLimitedIO(L).wrap(io.BytesIO(bytes(3_200_000)))
+        S._get_stream_hexdigest(w)
+        return {'limit': L, 'bytes': 3_200_000, 'virtual_seconds': clock.now, 'bound': L * clock.now + 0.76 * L}
+    finally:
+        U.time = saved
+
+
+def r7_adapter_pieces(k: int) -> bool:
+    """
+    pre: 0 <= k < 3 * 5 * 4 * 2
+    post: _
+    """
+    from crosshair.tracers import NoTracing
+    from vt.core import digits
+    ki, ci, si, op = digits(k, [3, 5, 4, 2])
+    with NoTracing():
+        ok, msg = adapter_pieces_case(['local', 's3', 'b2'][ki], [1, 7, 2000, 64000, 200000][ci], [0, 5, 4001, 300000][si] if ci else [0, 5, 33, 130][si], op)
+        tick('r7', [ki, ci, si, op])
+        if not ok and os.environ.get('VT_REPLAY'):
+            print('DETAIL:', msg)
+        return ok
